@@ -6,7 +6,7 @@ mutants/<prop>.py defines MUTANTS = [(id, file, old, new, expected rule | None =
 longer applies is reported as skipped."""
 import sys, os, subprocess, importlib.util, json
 VERIF = os.path.dirname(os.path.dirname(os.path.abspath(__file__)))
-REPO = '/repo'
+REPO = os.environ.get('VERIF_REPO', '/repo')
 
 def load(prop):
     p = os.path.join(VERIF, 'mutants', prop + '.py')
